@@ -7,7 +7,8 @@
 //	genum/gen/generate.go  validateParsableTraits, processDuplicates
 //
 // What go/types answers is an ATTRIBUTE of the trait descriptor: `td.Type` becomes a `GType` with the
-// fields `basic` (`Underlying().(*types.Basic)` and its `Kind()`), `typesImplements pkg iface` and
+// fields `basic` (`Underlying().(*types.Basic)` and its `Kind()`), `defaultTypeId` (the class of `types.Default(T)`
+// under `types.Identical`), `typesImplements pkg iface` and
 // `gcTypeImplements pkg iface` (types.Implements / gencommon.TypeImplements against the interface that
 // gencommon.FindIFaceDef(pkg, iface) finds).  `processDuplicates` calls the TRANSLATED
 // `Values.getPrimary` of Generated/GoGenumValues.lean.
@@ -56,6 +57,8 @@ const (
 	gtErr   = "Option String"
 	gtKVss  = "Go.KV String String"
 	gtKVuv  = "Go.KV Go.U64 (List GValue)"
+	gtKVst  = "Go.KV String (List GType)"
+	gtTypes = "List GType"
 	gtBK    = "BasicKind"
 	gtPrim  = "GValue × Bool" // result of getPrimary
 	gtNil   = "nil"
@@ -146,6 +149,10 @@ func gLeanType(e ast.Expr) string {
 		return gtKVss
 	case "map[uint64]Values":
 		return gtKVuv
+	case "map[string][]types.Type":
+		return gtKVst
+	case "[]types.Type":
+		return gtTypes
 	}
 	return ""
 }
@@ -163,6 +170,8 @@ func gKV(ty string) (k, v string, ok bool) {
 		return gtStr, gtStr, true
 	case gtKVuv:
 		return gtU64, gtVals, true
+	case gtKVst:
+		return gtStr, gtTypes, true
 	}
 	return "", "", false
 }
@@ -236,6 +245,9 @@ func (t *gg) expr(e ast.Expr, want string) (string, string) {
 		i, ity := t.expr(x.Index, "")
 		if el := gElem(ty); el != "" && ity == gtNat {
 			return "(← Go.listGet " + a + " " + i + ")", el
+		}
+		if kt, vt, kv := gKV(ty); kv && ity == kt {
+			return "(Option.getD (Go.kvGet " + a + " " + i + ") default)", vt // the zero value when the key is absent
 		}
 	case *ast.UnaryExpr:
 		switch x.Op {
@@ -443,6 +455,23 @@ func (t *gg) call(x *ast.CallExpr, want string) (string, string) {
 				t.errs = append(t.errs, "def "+nm+" : String := "+lit+"\n")
 				return "(some " + nm + ")", gtErr
 			}
+		}
+	case "types.Identical":
+		// identity of the DEFAULT types of two trait types: an equivalence relation; `defaultTypeId` names the class
+		if len(x.Args) == 2 {
+			var ids []string
+			for _, a := range x.Args {
+				c, ok := a.(*ast.CallExpr)
+				if !ok || src(c.Fun) != "types.Default" || len(c.Args) != 1 {
+					t.bad(x, "call")
+				}
+				v, ty := t.expr(c.Args[0], "")
+				if ty != gtType {
+					t.bad(x, "call")
+				}
+				ids = append(ids, v+".defaultTypeId")
+			}
+			return "(" + ids[0] + " == " + ids[1] + ")", gtBool
 		}
 	case "slices.DeleteFunc":
 		if len(x.Args) == 2 {
@@ -1288,7 +1317,7 @@ func runGenumGen(repo, out string) {
 		b.WriteString("  | " + name(k) + "\n")
 	}
 	b.WriteString("  deriving DecidableEq, Repr, Inhabited\n\n")
-	b.WriteString("/-- what the translated functions ask go/types about a `types.Type`: `basic` = `Underlying().(*types.Basic)`\n(`none`: the assertion fails) with its `Kind()`; `typesImplements pkg name` = `types.Implements(T, I)` and\n`gcTypeImplements pkg name` = `gencommon.TypeImplements(T, I)` for the interface `I` that\n`gencommon.FindIFaceDef(pkg, name)` finds -/\nstructure GType where\n  basic : Option BasicKind\n  typesImplements : String → String → Bool\n  gcTypeImplements : String → String → Bool\n  deriving Inhabited\n\n")
+	b.WriteString("/-- what the translated functions ask go/types about a `types.Type`: `basic` = `Underlying().(*types.Basic)`\n(`none`: the assertion fails) with its `Kind()`; `typesImplements pkg name` = `types.Implements(T, I)` and\n`gcTypeImplements pkg name` = `gencommon.TypeImplements(T, I)` for the interface `I` that\n`gencommon.FindIFaceDef(pkg, name)` finds; `defaultTypeId` = the class of `types.Default(T)` under `types.Identical` -/\nstructure GType where\n  basic : Option BasicKind\n  defaultTypeId : Nat\n  typesImplements : String → String → Bool\n  gcTypeImplements : String → String → Bool\n  deriving Inhabited\n\n")
 	for _, st := range []struct{ goN, lean string }{{"TraitInstance", gtTI}, {"TraitDesc", gtTD}} {
 		fmt.Fprintf(&b, "/-- `type %s struct` -/\nstructure %s where\n", st.goN, st.lean)
 		for _, f := range gFieldOrder(fTraits, st.goN, t.fields[st.lean]) {
